@@ -4,6 +4,8 @@
   its offset is `Rox.Props.C18Tok`.)
 -/
 import Rox.Lemmas.Size
+import Rox.Lemmas.DocSpans
+import Rox.Props.C01
 
 namespace Rox.Props.C18
 open Rox Rox.Lemmas
@@ -93,5 +95,20 @@ theorem comment_borrowed (T : Tables) (txt : Bytes) (lower : Token → Ctx → R
   res_norm at h
   subst h
   exact ⟨c1, id, h1, h2⟩
+
+/-- **Every string with the input lifetime is a slice of the input** (all valid UTF-8 inputs, all
+options, tables of the built crate): in every parsed document each element local name, PI target
+and value, borrowed comment / text value, attribute local name, borrowed attribute value,
+namespace prefix and borrowed namespace URI — the implicit `xml` binding (table entry 0, static
+strings) apart — is the slice of the input at its recorded offset: `SpanOk txt sp` says
+`sp.bytes = txt[sp.off .. sp.off + len]` and that range lies inside the input. Nodes created from
+inside an entity expansion included. -/
+theorem parsed_borrowed_are_slices (txt : Bytes) (hv : ValidUtf8 txt) (opt : Opt) (d : Doc)
+    (h : parse Generated.tables txt opt = .ok d) :
+    (∀ (i : Nat) (n : NodeData), d.nodes[i]? = some n → KindSpans txt n.kind) ∧
+    (∀ (k : Nat) (a : AttrData), d.attrs[k]? = some a → SpanOk txt a.localName ∧ StrOk txt a.value) ∧
+    (∀ (k : Nat) (v : Namespace), d.ns.values[k]? = some v → 0 < k → (∀ nm, v.name = some nm → SpanOk txt nm) ∧ StrOk txt v.uri) := by
+  have hs := parse_docSpans Generated.tables C01.generated_tables_ok txt hv opt d h
+  exact ⟨fun i n hn => (hs.nodes i n hn).1, fun k a ha => ⟨(hs.attrs k a ha).1, (hs.attrs k a ha).2.1⟩, hs.ns⟩
 
 end Rox.Props.C18
